@@ -104,6 +104,30 @@ pub fn generate(seed: u64) -> Sc {
     }
 }
 
+/// alphabet of the bounded-exhaustive part: two keys (one with two values), memory limit 1
+pub fn alphabet() -> Vec<Op> {
+    vec![
+        Op::Insert { id: 1, variant: 0 },
+        Op::Insert { id: 1, variant: 1 },
+        Op::Insert { id: 2, variant: 0 },
+        Op::Get { id: 1 },
+        Op::Get { id: 2 },
+        Op::Remove { id: 1 },
+        Op::Remove { id: 2 },
+        Op::Spill,
+    ]
+}
+
+pub fn generate_enum(index: u64) -> Sc {
+    Sc {
+        engine: ENGINE.into(),
+        seed: index,
+        limit: 1,
+        ibd_finished: index % 2 == 0,
+        ops: crate::nth_sequence(&alphabet(), index),
+    }
+}
+
 #[derive(Default)]
 struct Tiers {
     mem: Vec<u64>, // front = least recently used
